@@ -20,11 +20,11 @@ DEFAULT_OPTS = dict(
     ints=INT_PACKED + INT_ODD, floats=True, char=True, wchar=True, leb=True, void=True, enums=True, bits=True,
     arrays=True, expr=True, null=True, eof=True, pointers=True, nested=True, unions=True, anon=True,
     max_depth=2, max_fields=6, dynamic=True, hazard=True, multidim=True, struct_arrays=True, zero_len=True,
-    mixed_align=False, long_strings=False,
+    mixed_align=False, long_strings=False, null_structs=False, bits_char=False, bits_odd=False, wide_bits=False,
 )
 
 
-LONG_LENGTHS = [127, 128, 129, 255, 256, 257, 300, 511, 512, 513, 1000, 1023, 1024, 1025, 2048, 4095, 4096, 4097, 5000, 8191, 8192, 8193]
+LONG_LENGTHS = [31, 32, 33, 63, 64, 65, 127, 128, 129, 255, 256, 257, 300, 511, 512, 513, 1000, 1023, 1024, 1025, 2048, 4095, 4096, 4097, 5000, 8191, 8192, 8193]
 
 
 def opts(**kw):
@@ -181,7 +181,13 @@ def struct_type(draw, o, defs, names, depth, kind="struct", name=None, top=False
             open_unit = None
         # bit-field run
         if bits_now:
-            storage = draw(st.sampled_from([b for b in o["ints"] if b in INT_PACKED] or ["uint8"]))
+            pool = [b for b in o["ints"] if b in INT_PACKED] or ["uint8"]
+            if o.get("bits_char") and o["char"]:
+                pool = pool + ["char"]
+            if o.get("bits_odd") and not o.get("align_hint"):
+                # 24/48/128-bit storage units (packed mode only: in aligned mode the library lays them out inconsistently)
+                pool = pool + [b for b in o["ints"] if b in INT_ODD]
+            storage = draw(st.sampled_from(pool))
             if o["enums"] and draw(st.integers(0, 4)) == 0:
                 ed = draw(enum_def(names, opts(**{**o, "ints": [b for b in o["ints"] if b in INT_PACKED] or ["uint8"]})))
                 defs.append(ed)
@@ -198,6 +204,8 @@ def struct_type(draw, o, defs, names, depth, kind="struct", name=None, top=False
                 w = draw(st.integers(1, min(left, 9))) if left > 0 else 0
                 if w == 0:
                     break
+                if o.get("wide_bits") and left > 9 and draw(st.integers(0, 3)) == 0:
+                    w = draw(st.integers(1, left))  # widths beyond 9 that do not end the unit (32/64/128-bit units)
                 if draw(st.integers(0, 6)) == 0:
                     w = left  # fill the unit exactly
                 fn = field_name(draw, used, o["hazard"])
@@ -228,6 +236,12 @@ def struct_type(draw, o, defs, names, depth, kind="struct", name=None, top=False
                     used.add(f["name"])
                 fields.append({"name": None, "t": inner, "bits": None})
                 continue
+        if o.get("null_structs") and o["null"] and o["arrays"] and o["nested"] and depth > 0 and kind == "struct" and draw(st.integers(0, 11)) == 0:
+            # x[] over a structure of integers: the terminator is the element whose fields are ALL zero
+            sub = opts(**{**o, "floats": False, "char": False, "wchar": False, "leb": False, "enums": False, "bits": False, "arrays": False, "pointers": False, "nested": False, "void": False, "dynamic": False, "anon": False, "max_fields": 3})
+            el = draw(struct_type(sub, defs, names, depth - 1, kind="struct", name=None))
+            fields.append({"name": field_name(draw, used, o["hazard"]), "t": {"k": "a", "t": el, "len": ["null"]}, "bits": None})
+            continue
         base = _elem_type(draw, o, defs, names, depth)
         t = base
         fn = field_name(draw, used, o["hazard"])
@@ -298,7 +312,7 @@ def definition(draw, o=None, root_kind="struct"):
 @st.composite
 def config(draw, ptrs=("uint8", "uint16", "uint32", "uint64"), compiled=None, align=None):
     return {
-        "endian": draw(st.sampled_from(["<", ">"])),
+        "endian": draw(st.sampled_from(["<", ">", "<", ">", "!"])),
         "align": draw(st.booleans()) if align is None else align,
         "ptr": draw(st.sampled_from(list(ptrs))),
         "compiled": draw(st.booleans()) if compiled is None else compiled,
@@ -421,8 +435,21 @@ def gen_value(draw, sem, t, ctx=None, small=False, nonzero=False):
                 return (pat * (n // len(pat) + 1))[:n]
             pat = draw(st.sampled_from(["ab", "xyz€", "héllo", "q"]))
             return (pat * (n // len(pat) + 1))[:n]
-        if n > 200:
-            raise OverflowError("array too long for generation")
+        scalar_like = et["k"] == "e" or (et["k"] == "s" and et["n"] not in ("void",))
+        if form in ("null", "eof") and scalar_like and not (et["k"] == "s" and et["n"] in ("char", "wchar")) and getattr(sem, "long_strings", False) and draw(st.integers(0, 9)) == 0:
+            n = draw(st.sampled_from(LONG_LENGTHS[:17]))
+        if n > 40:
+            # long arrays: a short drawn pattern, repeated
+            if not scalar_like:
+                raise OverflowError("array too long for generation")
+            if et["k"] == "s" and et["n"] == "char":
+                pat = bytes((b or 0x41) if nz else b for b in draw(st.binary(min_size=3, max_size=7)))
+                return (pat * (n // len(pat) + 1))[:n]
+            if et["k"] == "s" and et["n"] == "wchar":
+                pat = draw(st.sampled_from(["ab", "xyz€", "héllo", "q"]))
+                return (pat * (n // len(pat) + 1))[:n]
+            pat = [gen_value(draw, sem, et, ctx, nonzero=nz) for _ in range(3)]
+            return [pat[i % 3] for i in range(n)]
         if et["k"] == "s" and et["n"] == "char":
             return b"".join(gen_scalar(draw, "char", nonzero=nz) for _ in range(n))
         if et["k"] == "s" and et["n"] == "wchar":
@@ -453,8 +480,18 @@ def gen_value(draw, sem, t, ctx=None, small=False, nonzero=False):
         refs = referenced_names(t)
         res = {}
         first = True
+        nzidx = 0
+        if nonzero:
+            # a non-terminator element: one drawn field is non-zero, the others (the first included) may be zero
+            cands = [i for i, f in enumerate(t["fields"]) if not f.get("bits") and sem.res(f["t"])["k"] in ("s", "e")]
+            nzidx = draw(st.sampled_from(cands)) if cands else 0
+        longrefs = _long_count_fields(draw, sem, t, refs) if getattr(sem, "long_strings", False) else {}
         for i, f in enumerate(t["fields"]):
             key = fkey(f, i)
+            if f.get("name") in longrefs and not f.get("bits"):
+                res[key] = longrefs[f["name"]]
+                first = False
+                continue
             if f.get("bits"):
                 v = draw(st.sampled_from([0, 1, (1 << f["bits"]) - 1, 1 << (f["bits"] - 1)])) if draw(st.booleans()) else draw(st.integers(0, (1 << f["bits"]) - 1))
                 if f["name"] in refs:
@@ -463,10 +500,65 @@ def gen_value(draw, sem, t, ctx=None, small=False, nonzero=False):
                     pass
                 res[key] = v
             else:
-                res[key] = gen_value(draw, sem, f["t"], res, small=f["name"] in refs, nonzero=nonzero and first)
+                res[key] = gen_value(draw, sem, f["t"], res, small=f["name"] in refs, nonzero=nonzero and i == nzidx)
             first = False
         return res
     raise ValueError(k)
+
+
+def _long_count_fields(draw, sem, t, refs):
+    """Occasionally give ONE count field a large value (255..1000): only when every array whose length refers to it has
+    scalar-like elements and a length expression that stays modest. -> {field name: value}"""
+    if not refs or draw(st.integers(0, 11)) != 0:
+        return {}
+    ok = []
+    for name in sorted(refs):
+        fld = [f for f in t["fields"] if f.get("name") == name and not f.get("bits")]
+        if not fld or sem.res(fld[0]["t"])["k"] != "s" or SCALARS[sem.res(fld[0]["t"])["n"]][0] != "int":
+            continue
+        size, signed = SCALARS[sem.res(fld[0]["t"])["n"]][1], SCALARS[sem.res(fld[0]["t"])["n"]][3]
+        hi = (1 << (size * 8 - (1 if signed else 0))) - 1
+        good = True
+        for f in t["fields"]:
+            ft = f["t"]
+            if ft["k"] == "a" and ft["len"][0] == "expr" and name in _ids_of(ft["len"][2]):
+                et = sem.res(ft["t"])
+                if not (et["k"] == "e" or (et["k"] == "s" and et["n"] != "void")) or len(_ids_of(ft["len"][2])) != 1:
+                    good = False
+            elif _mentions(ft, name):
+                good = False
+        if good:
+            ok.append((name, hi))
+    if not ok:
+        return {}
+    name, hi = draw(st.sampled_from(ok))
+    cands = [v for v in (255, 256, 257, 300, 1000) if v <= hi]
+    if not cands:
+        return {}
+    return {name: draw(st.sampled_from(cands))}
+
+
+def _ids_of(ast):
+    out = set()
+    if isinstance(ast, list):
+        if len(ast) >= 2 and ast[0] == "id":
+            out.add(ast[1])
+        for x in ast[1:]:
+            out |= _ids_of(x)
+    return out
+
+
+def _mentions(t, name):
+    """Does a (nested) type refer to `name` in a length expression other than at its own top level?"""
+    if t["k"] == "a":
+        if t["t"]["k"] == "a" and t["t"]["len"][0] == "expr" and name in _ids_of(t["t"]["len"][2]):
+            return True
+        return _mentions(t["t"], name) if t["t"]["k"] != "a" else _mentions(t["t"], name) or (t["len"][0] == "expr" and name in _ids_of(t["len"][2]))
+    if t["k"] == "st":
+        return any((f["t"]["k"] == "a" and f["t"]["len"][0] == "expr" and name in _ids_of(f["t"]["len"][2])) or _mentions(f["t"], name) for f in t["fields"])
+    if t["k"] == "p":
+        return False
+    return False
 
 
 def fill_garbage(draw, data, mask, tail=True):
